@@ -163,6 +163,15 @@ func (t *ActiveTable) Delete(ctx context.Context, req *regattapb.DeleteRangeRequ
 }
 
 func (t *ActiveTable) Txn(ctx context.Context, req *regattapb.TxnRequest) (*regattapb.TxnResponse, error) {
+	// Operations nested in a transaction obey the same limits as the standalone ones.
+	for _, ops := range [][]*regattapb.RequestOp{req.Success, req.Failure} {
+		for _, op := range ops {
+			if err := validateRequestOp(op); err != nil {
+				return nil, err
+			}
+		}
+	}
+
 	// Do not propose read-only transactions through the log
 	if req.IsReadonly() {
 		return readTable[*regattapb.TxnResponse](t, ctx, true, req)
@@ -195,6 +204,33 @@ func (t *ActiveTable) Txn(ctx context.Context, req *regattapb.TxnRequest) (*rega
 		Responses: txr.Responses,
 		Header:    &regattapb.ResponseHeader{Revision: txr.Revision},
 	}, nil
+}
+
+func validateRequestOp(op *regattapb.RequestOp) error {
+	switch o := op.GetRequest().(type) {
+	case *regattapb.RequestOp_RequestRange:
+		if len(o.RequestRange.GetKey()) > key.LatestVersionLen || len(o.RequestRange.GetRangeEnd()) > key.LatestVersionLen {
+			return serrors.ErrKeyLengthExceeded
+		}
+	case *regattapb.RequestOp_RequestPut:
+		if len(o.RequestPut.GetKey()) == 0 {
+			return serrors.ErrEmptyKey
+		}
+		if len(o.RequestPut.GetKey()) > key.LatestVersionLen {
+			return serrors.ErrKeyLengthExceeded
+		}
+		if len(o.RequestPut.GetValue()) > MaxValueLen {
+			return serrors.ErrValueLengthExceeded
+		}
+	case *regattapb.RequestOp_RequestDeleteRange:
+		if len(o.RequestDeleteRange.GetKey()) == 0 {
+			return serrors.ErrEmptyKey
+		}
+		if len(o.RequestDeleteRange.GetKey()) > key.LatestVersionLen {
+			return serrors.ErrKeyLengthExceeded
+		}
+	}
+	return nil
 }
 
 // Iterator returns open pebble.Iterator it is an API consumer responsibility to close it.
